@@ -661,6 +661,82 @@ def batch_names(ctx):
     ctx.note_batch("emitted-names-exist-in-numpy", len(names), dis, exhaustive=True, names=sorted(names))
 
 
+def batch_call_sequences(ctx):
+    """one bound program called several times: every call takes exactly the user's inputs — a missing one is an error
+    in EVERY call (also after a call that passed it), the result depends on this call's inputs only, wrapped data stay
+    bound and unmodified, and what one call was given is not kept for the next"""
+    import pytato as pt
+    from ..refeval import close, evaluate
+    rng = np.random.default_rng(ctx.seed + 1470)
+    cases = dis = 0
+    for i in range(60 if ctx.thorough else 20):
+        p = programs.generate(ctx.seed + 1471, i)
+        if len(p.inputs) < 1:
+            continue
+        expr = pt.transform.deduplicate(p.expr())
+        try:
+            bp = pytarget.generate(expr)
+        except Exception:   # noqa: BLE001  (unsupported programs are judged by the other batches)
+            continue
+        names = sorted(bp.expected_arguments)
+        if not names:
+            continue
+        bound_before = {k: np.array(v, copy=True) for k, v in bp.bound_arguments.items()}
+        ins1, ins2 = p.make_inputs(rng), p.make_inputs(rng)
+        ins1 = {k: v for k, v in ins1.items() if k in names}
+        ins2 = {k: v for k, v in ins2.items() if k in names}
+        cases += 1
+
+        def fail(sig, what):
+            nonlocal dis
+            dis += 1
+            ctx.violation(f"pytarget:call-sequence:{sig}", f"program {i}: {what}",
+                          {"seed": ctx.seed + 1471, "program_index": i, "arguments": names})
+        try:
+            r1 = bp(**ins1)
+        except Exception as e:   # noqa: BLE001
+            fail("first-call-fails", f"{type(e).__name__}: {str(e)[:100]}")
+            continue
+        # (a) a later call without one input must fail like a first call without it
+        missing = names[i % len(names)]
+        try:
+            bp(**{k: v for k, v in ins2.items() if k != missing})
+            fail("missing-input-accepted-after-a-complete-call",
+                 f"the second call omits {missing!r} and is accepted (the first call's value is still bound)")
+            continue
+        except TypeError:
+            pass
+        except Exception as e:   # noqa: BLE001
+            fail("missing-input-wrong-error", f"omitting {missing!r} raises {type(e).__name__}, a fresh program raises TypeError")
+            continue
+        # (b) a call with no input at all
+        try:
+            bp()
+            fail("no-input-accepted", "a call without any input is accepted after earlier calls")
+            continue
+        except TypeError:
+            pass
+        except Exception:   # noqa: BLE001
+            pass
+        # (c) the next complete call computes from ITS inputs; the first result is reproduced afterwards
+        try:
+            r2, r1b = bp(**ins2), bp(**ins1)
+        except Exception as e:   # noqa: BLE001
+            fail("later-call-fails", f"{type(e).__name__}: {str(e)[:100]}")
+            continue
+        ref2 = evaluate(expr, ins2)
+        ok2 = all(close(r2[k], ref2[k]) for k in ref2) if isinstance(ref2, dict) else close(r2, ref2)
+        same1 = all(close(r1b[k], r1[k]) for k in r1) if isinstance(r1, dict) else close(r1b, r1)
+        if not ok2 or not same1:
+            fail("result-depends-on-call-history", "the result of a call depends on the calls made before it")
+            continue
+        # (d) wrapped data: still bound, same contents, and no user input has crept into the bound arguments
+        after = bp.bound_arguments
+        if set(after) != set(bound_before) or any(not np.array_equal(np.asarray(after[k]), bound_before[k]) for k in bound_before):
+            fail("bound-arguments-changed", f"bound arguments before {sorted(bound_before)} / after the calls {sorted(after)}")
+    ctx.note_batch("call-sequences-on-one-bound-program", cases, dis, exhaustive=False)
+
+
 def run(ctx: common.Ctx):
     ctx.assumptions += [
         "NumPy's kernels are executed, not verified; JAX is absent: only the generator shared by both targets and "
@@ -670,6 +746,7 @@ def run(ctx: common.Ctx):
     ]
     ctx.lean_obligations("PtProofs.C14", THEOREMS)
     batch_names(ctx)
+    batch_call_sequences(ctx)
     batch_slices(ctx)
     batch_scalar_operands(ctx)
     batch_near_misses(ctx)
